@@ -1,5 +1,6 @@
 import XlModel.Store
 import XlModel.Sst
+import XlModel.ZipList
 import XlModel.Drv.Util
 /-
 Line protocol of C12 (see harness/cmd/vh/c12.go).  Names are %-escaped, blobs
@@ -136,6 +137,28 @@ def step (d : D) (w : List String) : D × String :=
         let st : Sst.St := { part := items, spilled := sp = "1", inPkg := ip = "1" }
         ({ d with sst := some st, sspec := items }, "sok " ++ sstState st)
       | none => (d, "bad-op")
+    | none => (d, "bad-op")
+  | "zipnames" :: a :: rest =>
+    -- zipnames <#streams> s.. <#pkg> p.. <#temp> t..  → the names writeToZip writes, sorted (with multiplicity)
+    match nat? a with
+    | some na =>
+      let ss := (rest.take na).map unesc
+      match rest.drop na with
+      | b :: rest2 =>
+        match nat? b with
+        | some nb =>
+          let ps := (rest2.take nb).map unesc
+          match rest2.drop nb with
+          | c :: rest3 =>
+            match nat? c with
+            | some nc =>
+              let ts := (rest3.take nc).map unesc
+              let z := ZipList.zipNames ss ps ts
+              (d, "N[" ++ " ".intercalate ((sortAsc (z.map fun n => (n, ()))).map fun q => esc q.1) ++ "]")
+            | none => (d, "bad-op")
+          | [] => (d, "bad-op")
+        | none => (d, "bad-op")
+      | [] => (d, "bad-op")
     | none => (d, "bad-op")
   | ["sread"] => sstOp d .read
   | ["sget", i] => match nat? i with | some n => sstOp d (.get n) | none => (d, "bad-op")
